@@ -1494,6 +1494,25 @@ func checkC04(c *ctx) {
 	for i := 0; i < nReal; i++ {
 		g.realBamCase(c, d, &impl)
 	}
+	// geometries beyond Go's 64-bit position arithmetic (minShift+3*depth >= 64): every Add is rejected
+	for _, gm := range [][2]int{{14, 17}, {40, 10}, {1, 21}} {
+		cs := &c04Case{Kind: "csi", MinShift: gm[0], Depth: gm[1], Version: 2, Strategy: "adjacent"}
+		cs.Recs = []c04Rec{
+			{Rid: 0, Start: 100, End: 200, Placed: true, Mapped: true, CB: 100, CE: 150},
+			{Rid: -1, Start: -1, End: 0, CB: 150, CE: 200},
+			{Rid: 0, Start: 0, End: 1, Placed: true, Mapped: true, CB: 200, CE: 250},
+		}
+		run := cs.build(newResult("C04", "x", 0), false)
+		r.hist("geometry>=64")
+		for _, code := range run.codes {
+			r.hist(fmt.Sprintf("geometry>=64.add.%c", code))
+			if code != 'r' {
+				r.note("csi.New(%d,%d): Add returned code %c, expected the range error", gm[0], gm[1], code)
+			}
+		}
+		d.add("c04.codes %s %s %s", cs.Kind, cs.cfgText(), cs.recsText())
+		impl = append(impl, string(run.codes))
+	}
 	for i := 0; i < nCases/3; i++ {
 		for _, k := range kinds {
 			cs := g.unsortedCase(k)
